@@ -42,3 +42,13 @@ Definition scannableb (body : string) : bool :=
 
 Definition scannable (body : string) : Prop :=
   pair_wf body = true /\ contains bs_bs_quote body = false.
+
+(** what the scanner hands to the line processor, whichever way the scan of the line ended: the
+    uncommented text, the flag [insert_it], the new scanner state.  (When the scan ended at an
+    unterminated string literal the line processor uses them only if the conditional state is
+    not Active; it raises the error otherwise.) *)
+Definition scan_parts (r : scan_res) : string * bool * scan_state :=
+  match r with
+  | ScanOk out ins st => (out, ins, st)
+  | ScanUnterminated out ins st => (out, ins, st)
+  end.
